@@ -174,6 +174,7 @@ theorem closedC_of_vw (Q : List String × List (Nat × Nat) × List Actor × Boo
     ClosedC (fun s => Q (vw s)) where
   clock := fun _ _ h => h
   gone := fun _ h => h
+  lastFlush := fun _ _ h => h
   refresh := fun s h => by rw [vw_refresh]; exact h
   allEmpty := fun s h => by rw [vw_allEmpty]; exact h
   hasPending := fun s h => by rw [vw_hasPending]; exact h
